@@ -16,6 +16,7 @@ type options struct {
 	verif     string
 	props     []string
 	tier      string
+	listFuncs bool
 	funcs     []string
 	verbose   bool
 	dump      string
@@ -70,6 +71,7 @@ func cmdCheck(args []string) int {
 	fs.IntVar(&o.jobs, "j", 12, "parallel obligations")
 	fs.BoolVar(&o.noReplay, "noreplay", false, "skip replay of counterexamples")
 	fs.IntVar(&o.seed, "seed", 0, "seed (recorded in evidence)")
+	fs.BoolVar(&o.listFuncs, "listfuncs", false, "print every function of the package and whether it is under contract, then exit")
 	fs.Parse(args)
 	o.props = splitList(props)
 	o.funcs = splitList(funcs)
@@ -101,6 +103,22 @@ func runCheck(o *options) int {
 	if err != nil {
 		fmt.Fprintln(os.Stderr, "govc: load:", err)
 		return 2
+	}
+	if o.listFuncs {
+		for _, k := range sortedKeys(eng.funcs) {
+			st := "none"
+			if fc := eng.cs.Funcs[k]; fc != nil {
+				st = "contract"
+				if fc.IsPart {
+					st = "partial"
+				}
+				if fc.Trusted && !fc.IsPart {
+					st = "trusted"
+				}
+			}
+			fmt.Printf("%s\t%s\n", st, k)
+		}
+		return 0
 	}
 	if err := eng.checkImmutables(); err != nil {
 		fmt.Fprintln(os.Stderr, "govc:", err)
@@ -149,7 +167,11 @@ func runCheck(o *options) int {
 		if fn == nil {
 			r.err = fmt.Errorf("%s: function not found in package (contract no longer maps onto the code)", key)
 		} else {
+			eng.resetNeeds()
 			r.ctx, r.err = eng.verifyFunc(fn, fc)
+			if r.ctx != nil {
+				r.ctx.prelude = eng.prelude()
+			}
 		}
 		results = append(results, r)
 	}
@@ -216,6 +238,10 @@ func runCheck(o *options) int {
 				ob.Res = res
 				if res.status != "unsat" {
 					ob.failedPart = i
+					if d := os.Getenv("GOVC_KEEP"); d != "" {
+						os.MkdirAll(d, 0o755)
+						os.WriteFile(filepath.Join(d, sanitize(ob.ID)+fmt.Sprintf(".part%d.smt2", i)), []byte(text(false)), 0o644)
+					}
 					break
 				}
 			}
@@ -242,7 +268,11 @@ func runCheck(o *options) int {
 				text := func(noLambda bool) string {
 					var b strings.Builder
 					b.WriteString("(set-logic ALL)\n")
-					b.WriteString(prelude)
+					if c.prelude != "" {
+						b.WriteString(c.prelude)
+					} else {
+						b.WriteString(prelude)
+					}
 					for _, cm := range c.cmds[:vc.cmdN] {
 						if cm.only != "" {
 							continue
@@ -284,6 +314,9 @@ func (ob *Obligation) query(prelude string, noLambda bool, model bool) string {
 }
 
 func (ob *Obligation) queryGoal(prelude string, noLambda bool, model bool, goal string) string {
+	if ob.fn.prelude != "" {
+		prelude = ob.fn.prelude // the function's own prelude (only the axioms it uses)
+	}
 	var b strings.Builder
 	if model {
 		b.WriteString("(set-option :produce-models true)\n")
